@@ -81,6 +81,9 @@ def install_cert_cache():
 
 
 HANDSHAKE_STEPS = 6
+# victim holds no / one spare peer connection ID (the peer withholds NEW_CONNECTION_ID frames), or
+# had seven and consumed them all with change_connection_id()
+SPARE_CID_STATES = ["nospare", "onespare", "consumed"]
 ZERO_RTT_STATES = ["zrtt1", "zrtt2"]     # server after 1 / 2 deliveries of a resumed handshake with early data
 STATES = (["fresh"] + [f"hs{k}" for k in range(HANDSHAKE_STEPS + 1)] +
           ["connected", "streams", "keyupdate", "closepending", "closing", "draining", "terminated"])
@@ -168,7 +171,35 @@ def build_state(role, state, seed, *, quic_logger=False, client_options=None, se
             sim.connect()       # a client exists on the network only after connect()
             sim.pending.clear()
         return sim, victim, rec
+    if state in ("nospare", "onespare"):
+        # the PEER issues no (one) connection ID beyond the handshake one: harness-side wrapper
+        # of the peer's `_replenish_connection_ids` (the victim is untouched)
+        pc = peer.conn
+        limit = 1 if state == "nospare" else 2
+        orig_replenish = pc._replenish_connection_ids
+
+        def replenish():
+            saved = pc._remote_active_connection_id_limit
+            pc._remote_active_connection_id_limit = min(saved, limit)
+            try:
+                orig_replenish()
+            finally:
+                pc._remote_active_connection_id_limit = saved
+
+        pc._replenish_connection_ids = replenish
     sim.connect()
+    if state in SPARE_CID_STATES:
+        sim.fair_phase(max_steps=60, done=lambda: sim.client.conn._handshake_confirmed
+                       and sim.server.conn._handshake_confirmed and not sim.pending)
+        _quiesce(sim)
+        if state == "consumed":
+            # every spare is consumed; the RETIRE_CONNECTION_ID frames never reach the peer, which
+            # therefore issues no replacement
+            for _ in range(8):
+                sim.api(victim, "change_connection_id")
+            sim.transmit(victim)
+            sim.pending.clear()
+        return sim, victim, rec
     if state.startswith("hs"):
         k = int(state[2:])
         for _ in range(k):
@@ -265,6 +296,25 @@ def _mutate(data, ops, genuine):
     return bytes(b)
 
 
+def resolve_dcid(sim, victim, sel):
+    """destination CID of an injected packet: None = the peer's current choice; "host:i" = the
+    i-th connection ID the victim currently has issued; "retired:i" = one it has retired;
+    "unknown:n" = n bytes nobody issued; hex otherwise"""
+    if sel is None:
+        return None
+    conn = victim.conn
+    kind, _, arg = sel.partition(":")
+    if kind == "host":
+        cids = conn._host_cids
+        return cids[int(arg) % len(cids)].cid if cids else None
+    if kind == "retired":
+        gone = [e.connection_id for _, e in victim.events if type(e).__name__ == "ConnectionIdRetired"]
+        return gone[int(arg) % len(gone)] if gone else bytes([0xEE]) * len(conn.host_cid)
+    if kind == "unknown":
+        return bytes([0xA5]) * int(arg)
+    return bytes.fromhex(sel)
+
+
 def materialise(sim, victim, spec):
     """spec -> datagram bytes (None when the attacker lacks the keys)"""
     from aioquic.quic.packet import encode_quic_retry, encode_quic_version_negotiation
@@ -294,7 +344,7 @@ def materialise(sim, victim, spec):
                 restore = pair
         try:
             data = inject.build(sim, victim.peer, payload, epoch=spec.get("epoch", "ONE_RTT"), pn=spec.get("pn"),
-                                pad_to=spec.get("pad_to"))
+                                pad_to=spec.get("pad_to"), dcid=resolve_dcid(sim, victim, spec.get("dcid")))
         finally:
             if restore is not None:
                 del restore.encrypt_packet
@@ -891,7 +941,7 @@ def conn_line(conn, prefix="rx.conn "):
     return (prefix + f"client={_b(conn._is_client)} state={conn._state.name} pending={_b(conn._close_pending)} "
             f"closed={'none' if ce is None else int(ce.error_code)} closeat={_b(conn._close_at is not None)} "
             f"init={_b(bool(conn._cryptos))} npaths={len(conn._network_paths)} retry={conn._retry_count} "
-            f"vn={_b(conn._version_negotiated_incompatible)}")
+            f"vn={_b(conn._version_negotiated_incompatible)} avail={len(conn._peer_cid_available)}")
 
 
 class DatagramTap:
@@ -946,6 +996,7 @@ class DatagramTap:
             space = conn._spaces[tls.Epoch.ONE_RTT if ep == tls.Epoch.ZERO_RTT else ep]
             pn = out[2]
             mask = 0x18 if tap.last.packet_type == C.QuicPacketType.ONE_RTT else 0x0C
+            rec["nc"] = _b(tap.last.destination_cid != conn.host_cid)
             rec.update(d="ok", dup=_b(pn < space.ack_queue_start or pn in space.ack_queue),
                        res=_b(out[0][0] & mask), disc=_b(space.discarded), p="ok")
             return out
@@ -963,6 +1014,7 @@ class DatagramTap:
                 rec["p"] = "other:" + type(e).__name__
                 raise
             finally:
+                rec["av"] = str(len(conn._peer_cid_available))
                 if before is None and conn._close_event is not None and conn._state.name == "DRAINING":
                     rec["closes"] = str(int(conn._close_event.error_code))
 
@@ -1024,7 +1076,7 @@ class DatagramTap:
         post = conn_line(conn, prefix="").split()
         kv = dict(t.split("=") for t in post)
         line = (f"{cls} | state={kv['state']} pending={kv['pending']} closed={kv['closed']} closeat={kv['closeat']} "
-                f"init={kv['init']} paths={_b(int(kv['npaths']) > 0)}")
+                f"init={kv['init']} paths={_b(int(kv['npaths']) > 0)} avail={kv['avail']}")
         if any(v.startswith("other") for p in self.pkts for v in p.values()):
             return
         self.cases.append(([self.pre, op.rstrip()], ["ok", line]))
